@@ -150,6 +150,25 @@ def run(facts, R):
         _highest_end_rules(facts, R, he)
 
     _replay_rules(facts, R)
+    _shared_cancel_sticky(facts, R)
+
+
+def _shared_cancel_sticky(facts, R):
+    """`a resume is accepted only before cancellation` needs cancellation to be permanent: C11's cancel-sticky rules (the flag is
+    only ever set, to Some, while None; request_resume refuses once it is set) are run here as well"""
+    from analysis import report as _report
+    from rules import C11 as _c11
+    sub = _report.Report(R.prop, R.tier, R.config)
+    try:
+        _c11.run(facts, sub)
+    except Exception as e:
+        sub.bad("anchor-resolution", "<crate>", "shared-C11-rules", "the shared cancel-sticky rules could not run: %s" % e)
+    for inst in sub.instances:
+        if inst["rule"] == "cancel-sticky" and inst["verdict"] == "holds":
+            R.instances.append(inst)
+    for v in sub.violations:
+        if v["rule"] in ("cancel-sticky", "anchor-resolution"):
+            R.bad(v["rule"], v["fn"], v["what"], v["msg"], v.get("site"), v.get("path"))
 
 
 def _edge_sum(a, b2):
@@ -391,6 +410,11 @@ def _replay_rules(facts, R):
     af = facts.body(TC + "::advance_to_file")
     asym = Sym(af)
     clears = [term_pt(af, i) for i, t in af.calls() if callee_matches(t["callee"], RING + "::clear") and _is_f(asym.op(t["args"][0]), "replay")]
+    if not clears:
+        # the ring replaced by a fresh one (`replay = ReplayRing::new(cap)`, alone or as part of a whole-state literal) is empty
+        fresh = [(w["bb"], w["idx"]) for w in field_writes(facts, INNER, "replay") if w["body"] is af and w["kind"] == "store" and is_call(asym.rvalue(w["rv"]), RING + "::new")]
+        if fresh:
+            clears = fresh
     if not clears:
         # ReplayRing::clear folded in: replay.chunks.clear() and replay.bytes_held = 0, both on every path (the pair is one event)
         cc = [term_pt(af, i) for i, t in af.calls() if t["callee"]["name"] == "clear" and "VecDeque" in t["callee"]["path"] and "replay.chunks" in render(asym.op(t["args"][0]))]
